@@ -790,6 +790,53 @@ fn crash_points(c: &CrashCase, ctx: &mut CaseCtx) -> Result<Result<(), String>, 
     Ok(Ok(()))
 }
 
+/// A write that fails part-way (file-size limit): the save must fail as a whole — the dictionary
+/// on disk still holds every previously added word.
+pub fn test_write_failure(c: &CrashCase, ctx: &mut CaseCtx) -> Result<(), String> {
+    let r = (|| -> Result<Result<(), String>, LspError> {
+        let sb = Sandbox::new("c07efbig");
+        let doc = sb.ws_file("fault.txt");
+        let uri = sb.uri("fault.txt");
+        let dict_path = if c.user { sb.user_dict() } else { file_dict_file(&sb, &doc) };
+        let _ = std::fs::create_dir_all(dict_path.parent().unwrap());
+        let pre: BTreeSet<String> = (0..c.pre_words).map(pre_word).collect();
+        let bytes: String = pre.iter().map(|w| format!("{w}\n")).collect();
+        std::fs::write(&dict_path, &bytes).map_err(|e| LspError::Protocol(e.to_string()))?;
+        let text = format!("We like {} here.\n", c.new_word);
+        std::fs::write(&doc, &text).map_err(|e| LspError::Protocol(e.to_string()))?;
+        // the limit lies inside the dictionary file: the rewrite fails after `limit` bytes
+        let limit = (bytes.len() as u64 / 2).max(64);
+        let mut srv = Server::start_full(&sb, sb.settings(json!({})), None, false, Some(limit))?;
+        srv.open(&uri, "plaintext", &text)?;
+        let cmd = if c.user { "HarperAddToUserDict" } else { "HarperAddToFileDict" };
+        let id = srv.request("workspace/executeCommand", json!({"command": cmd, "arguments": [c.new_word, uri]}))?;
+        srv.wait_response(id, std::time::Duration::from_secs(60))?;
+        srv.settle(std::time::Duration::from_millis(200))?;
+        let _ = srv.shutdown();
+        let got = read_lines(&dict_path);
+        let mut post = pre.clone();
+        post.insert(c.new_word.clone());
+        ctx.class("write_failed_part_way");
+        ctx.class(if got == pre { "save_failed_dictionary_unchanged" } else if got == post { "save_succeeded_despite_limit" } else { "dictionary_damaged" });
+        ctx.nontrivial(c);
+        if got != pre && got != post {
+            let lost = pre.iter().filter(|w| !got.contains(*w)).count();
+            return Ok(Err(format!(
+                "the dictionary rewrite failed after {limit} of {} bytes (file size limit), yet the dictionary on disk now holds {} words: {lost} of the {} previously added words are lost",
+                bytes.len(), got.len(), pre.len()
+            )));
+        }
+        Ok(Ok(()))
+    })();
+    match r {
+        Ok(r) => r,
+        Err(e) => {
+            ctx.infra(e);
+            Ok(())
+        }
+    }
+}
+
 pub fn run(run: &mut Run) {
     run.level = "fault_enumeration".into();
     run.rule = "(a) LSP histories on the real harper-ls (sandboxed HOME/XDG, buffer = disk): 1-3 documents (plain, Markdown, Rust, Python) mentioning non-words from an 18-word vocabulary (ASCII, non-ASCII Latin, straight and curly apostrophes); ops AddToUserDict / AddToFileDict (word = text under a published spelling diagnostic, as a code action sends it), Change, Restart; after every step: added words are no longer reported in any subsequently checked text they apply to, all other diagnostics unchanged, a file-dictionary word does not leak to other files, the dictionary file (lines as a set) equals the model, a restart reproduces the diagnostics. (c) crash points: the save is recorded under strace; every prefix of the globally ordered file mutations, and every short write, is replayed in a file-system model (checked to reproduce the real final state) and must reload to the previous words or the previous words plus the new one. Non-trivial (a) = >=2 adds and (a restart or a second document); (c) = pre-state with >=2 words.".into();
@@ -825,6 +872,12 @@ pub fn run(run: &mut Run) {
     run.threads = 4;
     run.enumerate("crash_point_enumeration", &cases, false, test_crash);
     run.threads = saved;
+    let faults = vec![
+        CrashCase { pre_words: 800, new_word: "frobnix".into(), user: true },
+        CrashCase { pre_words: 300, new_word: "naïvetéx".into(), user: false },
+    ];
+    run.enumerate("write_error_during_save", &faults, false, test_write_failure);
+    run.require_class("write_error_during_save", "write_failed_part_way", 2);
     run.require_class("crash_point_enumeration", "multi_write_save", 1);
     run.require_class("crash_point_enumeration", "crash_state", 20);
     if let Some(st) = run.stats.iter().find(|s| s.name == "crash_point_enumeration") {
@@ -835,7 +888,10 @@ pub fn run(run: &mut Run) {
 
 pub fn replay(check: &str, case: Value, _run: &mut Run) -> Result<(), String> {
     let mut ctx = CaseCtx::default();
-    let r = if check == "crash_point_enumeration" {
+    let r = if check == "write_error_during_save" {
+        let c: CrashCase = serde_json::from_value(case).map_err(|e| e.to_string())?;
+        test_write_failure(&c, &mut ctx)
+    } else if check == "crash_point_enumeration" {
         let c: CrashCase = serde_json::from_value(case).map_err(|e| e.to_string())?;
         test_crash(&c, &mut ctx)
     } else {
